@@ -41,8 +41,8 @@ CASES = [
 
 CASES += [
     m("getter treats a falsy tag as no tag", "C19-C",
-      "                if self.current_tag is not None:\n                    return piece[self.current_tag]",
-      "                if self.current_tag:\n                    return piece[self.current_tag]"),
+      "                if self.current_tag is not None:\n                    # (a copy: what is read is not the storage)\n                    return piece[self.current_tag].copy()",
+      "                if self.current_tag:\n                    return piece[self.current_tag].copy()"),
 ]
 
 CASES += [
@@ -103,4 +103,11 @@ CASES += [
     m("_add_data leaves the flag on the cell", "C19-K",
       "                                   dtype=dtype, tag=tag)\n        finally:\n            self.set_data_flag(flag_saved)\n",
       "                                   dtype=dtype, tag=tag)\n        finally:\n            pass\n"),
+]
+
+CASES += [
+    m("single-cell read hands out the stored array (the repaired defect)", "C19-G",
+      "                    return piece[self.current_tag].copy()", "                    return piece[self.current_tag]"),
+    m("read of the unresolved total hands out the stored array", "C19-G",
+      "                    ret = storage[_total].copy()", "                    ret = storage[_total]"),
 ]
